@@ -5,6 +5,7 @@
   references) and is checked on the implementation by the oracle.
 -/
 import HugrVerif.Proofs.StoreInsert
+import HugrVerif.Proofs.StoreInsertOrder
 import HugrVerif.Props.C04
 
 namespace HugrVerif.Props.C08
@@ -104,6 +105,63 @@ theorem frame (a a' b : Store Ω μ) (hs : SInv a) (parent : Option Nat) (mp : D
   · intro j d' hd'
     obtain ⟨d1, e1⟩ := G.bwd j d' hd'
     exact hc.only j d1 e1
+
+/-- **The hierarchy is copied with its child order**: the children of the image of a node of B are
+    the images of that node's children, in B's order; the image of B's root is appended to the
+    children of the insertion parent; every other children list of A is unchanged.  (B built through
+    the API; the insertion parent is a node of A.) -/
+theorem child_order_preserved (rootOp : Ω) (m : μ) (a a' b : Store Ω μ) (hs : SInv a)
+    (hb : C04.ReachT rootOp m b) (parent : Option Nat)
+    (htl : ∃ d, getNode a (parent.getD a.root) = .ok d)
+    (mp : Dict Nat Nat) (h : insertHugr a b parent = .ok (a', mp)) :
+    (∀ i x, Dict.get i mp = some x → ∃ db dx, getNode b i = .ok db ∧ getNode a' x = .ok dx ∧
+      childIdxs dx = imgs mp (childIdxs db)) ∧
+    (∀ j d, getNode a j = .ok d → ∃ d', getNode a' j = .ok d' ∧
+      childIdxs d' = childIdxs d ++ (if j = parent.getD a.root then imgs mp [b.root] else [])) := by
+  obtain ⟨order, _, ho, hnd, hcl, hmem⟩ := C04.hierarchy_order_exact rootOp m b hb
+  obtain ⟨_, hhb, hrb, _⟩ := C04.reachT_inv rootOp m b hb
+  obtain ⟨order', s1, ho', hn, hl⟩ := insertHugr_ok a a' b parent mp h
+  rw [ho] at ho'; injection ho' with ho'; subst ho'
+  have hc0 := copied_init a b parent hs.free
+  have hk0 : KidsInv a a b (parent.getD a.root) [] [] := by
+    refine ⟨by intro i x hx; simp [Dict.get] at hx, ?_⟩
+    intro j d hd
+    refine ⟨d, hd, ?_⟩
+    by_cases hj : j = parent.getD a.root <;> simp [hj, imgs]
+  obtain ⟨hc, _⟩ := insertNodes_spec a b parent order a s1 [] [] mp hc0 (by simp [Dict.NodupKeys]) (by simp) hnd hn
+  have hk := insertNodes_kids a b parent htl order a s1 [] [] mp hc0 hk0 (by simp) hnd hn
+  simp only [List.nil_append] at hk
+  have hl1 : LInv s1.links := by rw [hc.links]; exact hs.links
+  obtain ⟨_, G, _, _⟩ := insertLinks_spec mp b.links.fwd s1 a' hl1 hl
+  refine ⟨?_, ?_⟩
+  · intro i x hix
+    obtain ⟨ds, hds, hch⟩ := hk.img i x hix
+    obtain ⟨dx, ex, gr⟩ := G.fwd x ds hds
+    obtain ⟨_, db, _, e1, _⟩ := hc.image i x hix
+    refine ⟨db, dx, e1, ex, ?_⟩
+    have : childIdxs dx = childIdxs ds := by unfold childIdxs; rw [gr.children]
+    rw [this, hch, order_filter_kids b hhb order hnd hcl hmem i]
+    simp [kidsOf, e1]
+  · intro j d hd
+    obtain ⟨d1, e1, c1⟩ := hk.old j d hd
+    obtain ⟨d', e', gr⟩ := G.fwd j d1 e1
+    refine ⟨d', e', ?_⟩
+    have : childIdxs d' = childIdxs d1 := by unfold childIdxs; rw [gr.children]
+    rw [this, c1]
+    have hroot : order.filter (fun j => parentOf b j == none) = [b.root] := by
+      apply eq_of_same_order
+      · exact hnd.filter _
+      · simp
+      · intro c
+        obtain ⟨hp0, hl0⟩ := root_parent hrb
+        simp only [List.mem_filter, beq_iff_eq, List.mem_singleton]
+        constructor
+        · rintro ⟨hco, hp⟩; exact only_root hrb ((hmem c).mp hco) hp
+        · intro e; subst e; exact ⟨(hmem _).mpr hl0, hp0⟩
+      · intro c hc y hy
+        simp at hc; subst hc
+        simp [before] at hy
+    rw [hroot]
 
 /-- **For a B built through the API the hypotheses on its hierarchy walk hold** (so the three
     theorems above apply unconditionally): `_hierarchy_order` returns normally, without duplicates,
